@@ -700,8 +700,9 @@ def validate_unique_names(nodes):
     included = {}
 
     def define(name, node_, own):
+        """ the same definition may be seen through several includes: it is then the same object """
         known = defined.setdefault(name, node_)
-        if known is not node_ and (own or known != node_):
+        if known is not node_:
             raise ModelError("name '%s' redefined" % name)
 
     def visit(nodes_, own):
@@ -713,7 +714,7 @@ def validate_unique_names(nodes):
                 if known is None:
                     included[stem] = node_
                     visit(node_.members, False)
-                elif known is not node_ and known.members is not node_.members and known != node_:
+                elif known is not node_ and known.members is not node_.members:
                     raise ModelError("two different files named '%s' are included" % stem)
             else:
                 define(node_.name, node_, own)
